@@ -119,9 +119,10 @@ type histOpts struct {
 	// methods is what the provider's discovery document advertises as code_challenge_methods_supported
 	methods []string
 	// scale: unrelated cookies in the second browser, bytes added to every token, sub-second part of the clock
-	cookies int
-	bigTok  int
-	clockMs int
+	cookies  int
+	bigTok   int
+	clockMs  int
+	cbExtras int // further parameters in the provider's authorization responses
 }
 
 func genHistOpts(c *sim.Case) histOpts {
@@ -155,6 +156,7 @@ func genHistOpts(c *sim.Case) histOpts {
 	ho.cookies = sim.Tail(c, "b1.cookies", 1, 45)
 	ho.bigTok = []int{0, 0, 0, 0, 2500, 6000}[sim.Pick(c, "big-tokens", 6)]
 	ho.clockMs = []int{0, 0, 1, 250, 700, 999}[sim.Pick(c, "clock.ms", 6)]
+	ho.cbExtras = sim.Tail(c, "callback-extras", 2, 13)
 	return ho
 }
 
@@ -169,6 +171,7 @@ func (ho histOpts) build(c *sim.Case, mons ...monitor) *H {
 		w.Faults[k] = v
 	}
 	w.IdP.BigTokens = ho.bigTok
+	w.IdP.CallbackExtras = ho.cbExtras
 	if ho.clockMs > 0 {
 		w.Clock.Advance(time.Duration(ho.clockMs) * time.Millisecond)
 	}
